@@ -11,6 +11,19 @@ DIRECTED = [
      [{'all': False, 'check': 'CheckECKeySmallDifference', 'batch': ['s1', 's2', 's3']}]),
     ('ec', 'dup-zero', {'s1': 'zero', 's2': 'copy1'}, [{'all': False, 'check': 'CheckECKeySmallDifference', 'batch': ['s1', 's2']}]),
     ('ec', 'dup-p', {'s1': 'coordp', 's2': 'copy1'}, [{'all': True, 'check': 'ALL', 'batch': ['s2', 's1']}]),
+    ('ec', 'unreduced-duplicate-y', {'s1': 'healthy', 's2': 'unreducedy1'},
+     [{'all': False, 'check': 'CheckECKeySmallDifference', 'batch': ['s1', 's2']}, {'all': False, 'check': 'CheckWeakECPrivateKey', 'batch': ['s2', 's1']}]),
+    ('ec', 'unreduced-duplicate', {'s1': 'healthy', 's2': 'unreducedx1', 's3': 'healthy384'},
+     [{'all': False, 'check': 'CheckECKeySmallDifference', 'batch': ['s1', 's2', 's3']}, {'all': True, 'check': 'ALL', 'batch': ['s2', 's1']}]),
+    ('ec', 'unreduced-zero', {'s1': 'zero', 's2': 'unreduced1'}, [{'all': False, 'check': 'CheckECKeySmallDifference', 'batch': ['s1', 's2']}]),
+    ('ecdsa', 'many-honest-one-issuer', {'s1': 'healthy12', 's2': 'healthyA'},
+     [{'all': False, 'check': 'CheckNonceGeneralized', 'batch': ['s1']}, {'all': True, 'check': 'ALL', 'batch': ['s2', 's1']}]),
+    ('rsa', 'size-sweep-1', {'s1': 'bits100', 's2': 'bits127', 's3': 'bits128', 's4': 'bits129', 's5': 'bits255', 's6': 'bits256', 's7': 'bits257',
+                             's8': 'bits383', 's9': 'bits384', 's10': 'bits385'},
+     [{'all': True, 'check': 'ALL', 'batch': ['s%d' % i for i in range(1, 11)]}]),
+    ('rsa', 'size-sweep-2', {'s1': 'bits400', 's2': 'bits447', 's3': 'bits511', 's4': 'bits512', 's5': 'bits513', 's6': 'bits767', 's7': 'bits768',
+                             's8': 'bits769', 's9': 'bits1023', 's10': 'bits1025'},
+     [{'all': True, 'check': 'ALL', 'batch': ['s%d' % i for i in range(10, 0, -1)]}]),
     ('rsa', 'every-degenerate', {'s1': 'prime', 's2': 'even', 's3': 'square', 's4': 'pow2'}, [{'all': True, 'check': 'ALL', 'batch': ['s1', 's2', 's3', 's4']}]),
     ('rsa', 'tiny', {'s1': 'bits64', 's2': 'bits65', 's3': 'oddlen', 's4': 'empty_e'}, [{'all': True, 'check': 'ALL', 'batch': ['s4', 's3', 's2', 's1']}]),
 ]
